@@ -212,6 +212,16 @@ func (c *Conn) Read(p []byte) (int, error) {
 			c.log(Op{Kind: OpRead, Want: len(p), Err: c.EndErr})
 			return 0, c.EndErr
 		}
+		// a blocked read honours the armed read deadline
+		if c.RDSet && !c.RD.IsZero() {
+			d := time.Until(c.RD)
+			if d <= 0 {
+				err := &TimeoutErr{"xport: i/o timeout (read deadline)"}
+				c.log(Op{Kind: OpRead, Want: len(p), Err: err})
+				return 0, err
+			}
+			time.AfterFunc(d+time.Millisecond, c.cond.Broadcast)
+		}
 		c.cond.Wait()
 	}
 	ch := &c.script[c.si]
@@ -333,6 +343,7 @@ func (c *Conn) deadline(k OpKind, t time.Time) error {
 		c.WD, c.WDSet = t, true
 	}
 	c.log(Op{Kind: k, T: t})
+	c.cond.Broadcast()
 	return nil
 }
 
